@@ -337,6 +337,9 @@ func intrinsic(fr *frame, fn *ssa.Function, args []value) (value, bool) {
 		return concretizeStr(args[0]), true
 	case "ExploreSchedules":
 		sched.explore = args[0].(bool)
+		if sched.explore {
+			e.usedSched = true
+		}
 		return nil, true
 	case "Yield":
 		sched.yield()
